@@ -329,6 +329,12 @@ Dep(metric, a, sh, e) == Trainable(a, e) /\ e[1] = "a" /\ ~KeepAlive(a, e) /\ Al
 (*                 sample: the restore is a no-op)                         *)
 (*   "dropsfrozen" PIT: the continuous kernel size ignores the dilation    *)
 (*                 mask while train_dilation is off                        *)
+(*   "effmatch"    PIT: when the cost specification is assigned again      *)
+(*                 ("respec") the pattern constraints that pick each       *)
+(*                 layer's cost function (depthwise vs generic) are        *)
+(*                 matched on the EFFECTIVE (mask-dependent) description:  *)
+(*                 the cost then also depends on the parameter version at  *)
+(*                 which the specification was last assigned               *)
 (***************************************************************************)
 SampleKind(method, mode) == IF method = "mps" /\ mode = "eval" THEN "hard" ELSE "soft"
 AllOn   == [features |-> TRUE, rf |-> TRUE, dilation |-> TRUE, net |-> TRUE]
@@ -345,7 +351,8 @@ RefStep(method, r, act) ==
       [] OTHER           -> r
 RefKey(method, r, disc) == IF method = "pit" THEN <<r.ver, disc>> ELSE <<r.ver, r.fw>>
 
-ImplInit(method) == [ver |-> 0, mode |-> "train", rg |-> AllOn, cells |-> <<<<0, SampleKind(method, "train")>>>>, cur |-> 1]
+ImplInit(method) == [ver |-> 0, mode |-> "train", rg |-> AllOn, cells |-> <<<<0, SampleKind(method, "train")>>>>, cur |-> 1,
+                     specver |-> -1]          \* -1: the function map built by the constructor (all masks open)
 ImplSample(impl, method, h, mode) ==
     LET c == <<h.ver, SampleKind(method, mode)>> IN
     IF impl = "inplace" /\ method = "mps" /\ mode = "eval"
@@ -363,10 +370,13 @@ ImplStep(impl, method, h, act) ==
       [] act[1] = "feat"        -> [h EXCEPT !.rg.features = (act[2] = "on")]
       [] act[1] = "rf"          -> [h EXCEPT !.rg.rf = (act[2] = "on")]
       [] act[1] = "dil"         -> [h EXCEPT !.rg.dilation = (act[2] = "on")]
+      [] act[1] = "respec"      -> [h EXCEPT !.specver = h.ver]        \* cost_specification assigned again (same metrics)
       [] OTHER                  -> h                                   \* summary
 ImplKey(impl, method, h, disc) ==
     IF method = "pit"
-    THEN IF impl = "dropsfrozen" /\ ~disc /\ ~h.rg.dilation THEN <<h.ver, disc, "no dilation mask">> ELSE <<h.ver, disc>>
+    THEN IF impl = "dropsfrozen" /\ ~disc /\ ~h.rg.dilation THEN <<h.ver, disc, "no dilation mask">>
+         ELSE IF impl = "effmatch" /\ h.specver >= 0 THEN <<h.ver, disc, "functions matched at version", h.specver>>
+         ELSE <<h.ver, disc>>
     ELSE <<h.ver, h.cells[h.cur]>>
 \* the calls a history is made of (calls that change nothing the model tracks, e.g. train() in training mode, are left out)
 HistActs(method, h) ==
@@ -374,7 +384,8 @@ HistActs(method, h) ==
     \cup (IF h.rg # NetOnly THEN {<<"net_only", "">>} ELSE {})
     \cup (IF h.rg # NasOnly THEN {<<"nas_only", "">>} ELSE {})
     \cup (IF h.rg # AllOn THEN {<<"net_and_nas", "">>} ELSE {})
-    \cup (IF method = "pit" THEN {<<"feat", OnOff(~h.rg.features)>>, <<"rf", OnOff(~h.rg.rf)>>, <<"dil", OnOff(~h.rg.dilation)>>}
+    \cup (IF method = "pit" THEN {<<"feat", OnOff(~h.rg.features)>>, <<"rf", OnOff(~h.rg.rf)>>, <<"dil", OnOff(~h.rg.dilation)>>,
+                                   <<"respec", "">>}
           ELSE IF method = "sn" THEN {<<"feat", OnOff(~h.rg.features)>>} ELSE {})
 
 (* ------------------------------ mixing (MPS / SuperNet) ----------------- *)
